@@ -8,6 +8,10 @@
 (*                           of the current bytes (v) and, when the current bytes were written by *)
 (*                           the preceding Encode, against the operations given to it (rt): this  *)
 (*                           is the property, decode(encode(x)) = x up to integral reals          *)
+(*   Reset                   a fresh thread                                                       *)
+(*   Disturb{t, kind, n}     ContentHist!Disturb: thread t decoded n damaged inputs of that kind;  *)
+(*                           changes nothing (history independence): later calls are judged as in *)
+(*                           a fresh process, the verdict only names the history (after)           *)
 (* The trace spec carries cur = [has, bytes, rd = Content!ReadOps(bytes), enc, ops].             *)
 EXTENDS Content, Json, IOUtils, TLC
 
@@ -18,27 +22,47 @@ KindFirst_Trace_Content(o) == <<o.k, o.neg, o.v, o.w>>
 
 Recs == ndJsonDeserialize(IOEnv.TRACE)
 
-VARIABLES l, cur
+VARIABLES l, cur,
+          dist     \* disturbances since the last Reset: <<[t, kind]>> (history; the judgements never read it)
 
 NoCur == [has |-> FALSE]
 
 Out(i, rec, v, rt) ==
-    PrintT(<<"VERDICT", ToJson([i |-> i, ev |-> rec.ev, v |-> v.v, rt |-> rt.v, d |-> v, rd |-> rt])>>)
+    PrintT(<<"VERDICT", ToJson([i |-> i, ev |-> rec.ev, v |-> v.v, rt |-> rt.v, d |-> v, rd |-> rt, after |-> dist])>>)
 
 Ok(s) == [v |-> s]
 
-Init == l = 1 /\ cur = NoCur
+Init == l = 1 /\ cur = NoCur /\ dist = <<>>
+
+\* a fresh thread / process
+DoReset ==
+    /\ Recs[l].ev = "Reset"
+    /\ cur' = NoCur /\ dist' = <<>>
+    /\ Out(l, Recs[l], Ok("ok-reset"), Ok("ok-na"))
+    /\ l' = l + 1
+
+\* ContentHist!Disturb: thread t decoded damaged input of some kind.  encode / decode are functions of their
+\* argument alone, so the action changes nothing the judgements below depend on: every later call is judged
+\* exactly as in a fresh process.  The history is carried only to name it in the verdict.
+DoDisturb ==
+    /\ Recs[l].ev = "Disturb"
+    /\ dist' = Append(dist, [t |-> Recs[l].t, kind |-> Recs[l].kind])
+    /\ UNCHANGED cur
+    /\ Out(l, Recs[l], Ok("ok-disturb"), Ok("ok-na"))
+    /\ l' = l + 1
 
 DoGiven ==
     /\ Recs[l].ev = "Given"
     /\ LET rd == ReadOps(Recs[l].bytes) IN
           /\ cur' = [has |-> TRUE, bytes |-> Recs[l].bytes, rd |-> rd, enc |-> FALSE, ops |-> <<>>]
+          /\ UNCHANGED dist
           /\ Out(l, Recs[l], IF rd.ok THEN [v |-> "ok", nops |-> Len(rd.ops), img |-> InlineFacts(Recs[l].bytes)]
                              ELSE [v |-> "strict-reader-rejects", err |-> rd.err, at |-> rd.at], Ok("ok-na"))
     /\ l' = l + 1
 
 DoEncode ==
     /\ Recs[l].ev = "Encode"
+    /\ UNCHANGED dist
     /\ LET rec == Recs[l] IN
        IF rec.res # "ok"
        THEN /\ cur' = NoCur
@@ -62,10 +86,10 @@ DoDecode ==
                  ELSE IF rec.res # "ok" THEN [v |-> "rt-decode-failed", res |-> rec.res]
                  ELSE JudgeSame(cur.ops, ops)
        IN Out(l, rec, v, rt)
-    /\ UNCHANGED cur
+    /\ UNCHANGED <<cur, dist>>
     /\ l' = l + 1
 
-Next == l <= Len(Recs) /\ (DoGiven \/ DoEncode \/ DoDecode)
-Spec == Init /\ [][Next]_<<l, cur>>
+Next == l <= Len(Recs) /\ (DoGiven \/ DoEncode \/ DoDecode \/ DoReset \/ DoDisturb)
+Spec == Init /\ [][Next]_<<l, cur, dist>>
 Consumed == TLCGet("stats").diameter = Len(Recs) + 1
 =============================================================================
